@@ -241,6 +241,23 @@ func (s *session) judgeStep(res *resT, a actT, before, want map[string]string, w
 			merge(ctx, map[string]any{"ref": g, "ref_ns": st.ref.NS, "ref_id": st.ref.ID, "expected": want[g], "observed": got[g], "act": a}))
 	}
 	vr := s.vr()
+	// the property's own statement on the real values: ValidateReferences() = nil exactly when every
+	// reference below that scope answers ObjectReady()
+	for g, v := range vr {
+		all := true
+		var st []site
+		refSites(s.w.scopeAST[g], nil, "", &st)
+		for _, x := range st {
+			if r, okr := s.w.refs[x.ref.Tag]; !okr || !r.ObjectReady() {
+				all = false
+			}
+		}
+		if all != v {
+			ok = false
+			res.add(false, map[string]any{"op": "validate_references", "class": fmt.Sprintf("verdict_%v_all_linked_%v", v, all)},
+				merge(ctx, map[string]any{"scope": g, "links": got, "act": a}))
+		}
+	}
 	for g, v := range vr {
 		if w, has := wantVR[g]; has && w != v {
 			ok = false
@@ -324,6 +341,7 @@ func replayAndJudge(res *resT, c *caseT, hist []actT, last *nextT, st *stateT) {
 
 type pair struct {
 	orig, inl *schema.ScopeSchema
+	twin      *schema.ScopeSchema // the tree with no property disabled (nil: nothing is disabled)
 	rb        *schema.ScopeSchema // the tree rebuilt from its own description (nil: not available)
 	rbJudge   bool                // its values are comparable (map-based objects only)
 	rbSelf    map[string]string   // rebuilt: observed links after UnserializeScope
@@ -387,6 +405,22 @@ func buildPair(res *resT, tree *T, ext map[string]*T, nstab map[string]string, k
 		return nil, inl
 	}
 	p := &pair{orig: top, inl: itop, sites: s.sites}
+	if tw := enabledTwin(tree); tw != nil {
+		ws := newSession(tw, ext)
+		pi := sup.Guard(func() {
+			var order []*T
+			scopesPostOrder(tw, &order)
+			for _, sc := range order {
+				ws.w.buildScope(sc)
+			}
+			for _, ns := range sortedKeys(nstab) {
+				ws.w.scopes[tw.Tag].ApplyNamespace(ws.extW[nstab[ns]].Objects(), ns)
+			}
+		})
+		if pi == nil {
+			p.twin = ws.w.scopes[tw.Tag]
+		}
+	}
 	p.rebuild(res, s, tree, nstab)
 	return p, inl
 }
@@ -546,6 +580,14 @@ func (p *pair) compare(res *resT, mkIn func() any, exp *expT, label map[string]a
 				merge(label, map[string]any{"scope": fmt.Sprintf("%#v", a.v), "rebuilt": fmt.Sprintf("%#v", c.v)}))
 		}
 	}
+	if p.twin != nil && !a.ok {
+		// An input the scope rejects, possibly because it sets a disabled property: Validate and Serialize
+		// never look at the flag, so its unserialized form (obtained from the twin without disabled
+		// properties) must fare alike on the scope, the inlined scope and the rebuilt scope.
+		if n := guarded(func() (any, error) { return p.twin.Unserialize(mkIn()) }); n.ok {
+			p.validateSerialize(res, n.v, merge(label, map[string]any{"via": "value that sets a disabled property"}))
+		}
+	}
 	if exp != nil {
 		if exp.OK != a.ok {
 			res.add(true, map[string]any{"op": "unserialize", "class": "model_verdict"},
@@ -565,10 +607,16 @@ func (p *pair) compare(res *resT, mkIn func() any, exp *expT, label map[string]a
 	if d, ok := label["depth"].(int); ok && d > 200 {
 		return true, true
 	}
-	va := guarded(func() (any, error) { return nil, p.orig.Validate(a.v) })
-	vb := guarded(func() (any, error) { return nil, p.inl.Validate(a.v) })
-	sa := guarded(func() (any, error) { return p.orig.Serialize(a.v) })
-	sb := guarded(func() (any, error) { return p.inl.Serialize(a.v) })
+	p.validateSerialize(res, a.v, label)
+	return true, true
+}
+
+// validateSerialize: a value in unserialized form through Validate and Serialize of the variants.
+func (p *pair) validateSerialize(res *resT, v any, label map[string]any) {
+	va := guarded(func() (any, error) { return nil, p.orig.Validate(v) })
+	vb := guarded(func() (any, error) { return nil, p.inl.Validate(v) })
+	sa := guarded(func() (any, error) { return p.orig.Serialize(v) })
+	sb := guarded(func() (any, error) { return p.inl.Serialize(v) })
 	res.Evals += 4
 	for _, q := range []struct {
 		op   string
@@ -595,7 +643,24 @@ func (p *pair) compare(res *resT, mkIn func() any, exp *expT, label map[string]a
 				merge(label, map[string]any{"scope": fmt.Sprintf("%#v", q.x.v), "inlined": fmt.Sprintf("%#v", q.y.v)}))
 		}
 	}
-	return true, true
+	if p.rb != nil && p.rbJudge {
+		vc := guarded(func() (any, error) { return nil, p.rb.Validate(v) })
+		sc := guarded(func() (any, error) { return p.rb.Serialize(v) })
+		res.Evals += 2
+		for _, q := range []struct {
+			op   string
+			x, y outcome
+		}{{"validate", va, vc}, {"serialize", sa, sc}} {
+			switch {
+			case q.y.pi != nil && q.x.pi == nil:
+				res.add(false, map[string]any{"op": q.op, "class": "panic", "frame": q.y.pi.Frame, "variant": "rebuilt"},
+					merge(label, map[string]any{"panic": q.y.pi.Msg}))
+			case q.x.pi == nil && q.y.pi == nil && q.x.ok != q.y.ok:
+				res.add(false, map[string]any{"op": q.op, "class": "accept_differs", "variant": "rebuilt"},
+					merge(label, map[string]any{"scope_err": q.x.err, "rebuilt_err": q.y.err}))
+			}
+		}
+	}
 }
 
 func (r *rawT) toGo() any {
